@@ -305,7 +305,16 @@ func runC26(rc *sk.RunCtx) {
 	nd := 1 + tp.Choose(6)
 	var dsts []netip.AddrPort
 	for i := 0; i < nd; i++ {
-		if tp.Chance(1, 5) {
+		if i > 0 && tp.Chance(1, 4) {
+			// two peers behind one NAT: an address already in the list with another port; or the same address and
+			// port spelled as an IPv4-mapped IPv6 address (one destination as far as the kernel is concerned)
+			prev := dsts[tp.Choose(len(dsts))]
+			if prev.Addr().Is4() && tp.Chance(1, 3) {
+				dsts = append(dsts, netip.AddrPortFrom(netip.AddrFrom16(prev.Addr().As16()), prev.Port()))
+			} else {
+				dsts = append(dsts, netip.AddrPortFrom(prev.Addr(), prev.Port()+uint16(1+tp.Choose(3))))
+			}
+		} else if tp.Chance(1, 5) {
 			// an IPv6 destination: unroutable on a v4 socket
 			dsts = append(dsts, netip.AddrPortFrom(netip.AddrFrom16([16]byte{0xfd, 0, 0, 0, 0, 0, 0, 0, 0, 0, 0, 0, 0, 0, 0, byte(i + 1)}), uint16(4000+i)))
 		} else {
@@ -383,11 +392,11 @@ func runC26(rc *sk.RunCtx) {
 		if p < 0 {
 			continue
 		}
-		if prev, ok := last[k.addrs[p]]; ok && prev > p {
+		if prev, ok := last[normAP(k.addrs[p])]; ok && prev > p {
 			rc.Fail("reordered", "datagram %d was accepted after datagram %d for the same destination %v", p, prev, k.addrs[p])
 			return
 		}
-		last[k.addrs[p]] = p
+		last[normAP(k.addrs[p])] = p
 	}
 	// nothing unroutable reached the kernel (decode would have flagged the family), nothing invented
 	for p := range k.count {
